@@ -11,7 +11,8 @@ import (
 )
 
 // C09: concurrent cache.Cache workloads.  One op line describes a whole
-// workload: `run <limit> <gomaxprocs> <tid>:<op>:<args…> …` (per-thread program
+// workload: `run <limit> <gomaxprocs>[t][v] <tid>:<op>:<args…> …` (flag t: tight mode, flag v: the size
+// of a value is value%3+1 instead of 1 — the driver reads the same flag; per-thread program
 // order = order of appearance).  Each goroutine executes its ops in order and
 // records invocation/response ticks from one atomic counter; the observation
 // is the recorded history plus the eviction-callback log and final Len/Size.
@@ -30,16 +31,24 @@ func (r *c09) Exec(op []string) string {
 	if op[0] == "reset" {
 		return "-"
 	}
-	tight := strings.HasSuffix(op[2], "t") // tight mode: no artificial yields anywhere (short critical sections, spinning waiters)
-	limit, procs := atoi(op[1]), atoi(strings.TrimSuffix(op[2], "t"))
+	flags := strings.TrimLeft(op[2], "0123456789")
+	tight := strings.Contains(flags, "t")   // tight mode: no artificial yields anywhere (short critical sections, spinning waiters)
+	varSize := strings.Contains(flags, "v") // size of a value = value%3+1 (refused Puts, Puts evicting several entries, Size ≠ Len)
+	limit, procs := atoi(op[1]), atoi(strings.TrimSuffix(op[2], flags))
+	if varSize {
+		r.st.Note("variable-sizes")
+	}
 	old := runtime.GOMAXPROCS(procs)
 	defer runtime.GOMAXPROCS(old)
 	var evlog []string // appended only inside the callback, i.e. under the cache's own mutex
 	// The size function and the callback run inside the cache's critical section; letting them yield
 	// stretches that section so that other goroutines really arrive while a call is in progress.
-	c := cache.New(int64(limit), cache.LRU[int, int]().WithSize(func(int) int64 {
+	c := cache.New(int64(limit), cache.LRU[int, int]().WithSize(func(v int) int64 {
 		if !tight {
 			runtime.Gosched()
+		}
+		if varSize {
+			return int64(v%3 + 1)
 		}
 		return 1
 	}).OnEvict(func(k, v int) {
@@ -107,7 +116,16 @@ func (r *c09) Exec(op []string) string {
 			if e.res != e.inv+1 {
 				overlap = true
 			}
+			if strings.HasPrefix(e.op, "put:") && e.result == "F" {
+				r.st.Note("put-refused")
+			}
 		}
+	}
+	if c.Size() != int64(c.Len()) {
+		r.st.Note("final-size!=len")
+	}
+	if all := strings.Join(op[3:], " "); tight && strings.Contains(all, ":clear") && strings.Contains(all, ":remove:") {
+		r.st.Note("hot-key-with-remove-and-clear")
 	}
 	if overlap {
 		r.st.Note("overlapping-calls")
@@ -155,18 +173,33 @@ func genC09(g *G) {
 	cases := g.Scale(1500, 30000)
 	for c := 0; c < cases; c++ {
 		nthreads := 2 + g.Intn(3)
+		// limit ≤ 4 (and sizes ≥ 1) is load-bearing: the reference-LRU verdict of this stream has no excuse for
+		// finding F2, which needs 5 live entries (C08_lru_small_cache); a larger limit would give false alarms.
 		limit := 1 + g.Intn(4)
 		keys := 2 + g.Intn(3)
 		procs := []int{1, 2, 4, 8, 16}[g.Intn(5)]
+		flags := ""
+		if g.Chance(1, 3) {
+			flags = "v" // sizes value%3+1: refused and multi-evicting Puts under concurrency
+		}
 		var toks []string
 		val := 1
 		if g.Chance(1, 4) {
 			// hot-key pattern: one writer keeps replacing the same key while the others only observe it;
 			// any window in which the key is transiently absent (or counted twice) is not linearizable
+			// (half of them: the writer also removes the key now and then and the last observer clears the
+			// cache twice, so that "absent" is a legal answer in some windows and not in others)
 			hot := g.Intn(keys)
+			withRemove := g.Chance(1, 2)
 			for i := 0; i < 8; i++ {
 				toks = append(toks, fmt.Sprintf("0:put:%d:%d", hot, val))
 				val++
+				if withRemove && i%3 == 1 {
+					toks = append(toks, fmt.Sprintf("0:remove:%d", hot))
+				}
+				if withRemove && (i == 2 || i == 6) {
+					toks = append(toks, fmt.Sprintf("%d:clear", nthreads-1))
+				}
 				for j := 0; j < 5; j++ { // observers run long tight loops so that they are contending when a window opens
 					for t := 1; t < nthreads; t++ {
 						toks = append(toks, fmt.Sprintf("%d:%s", t, g.Pick(fmt.Sprintf("has:%d", hot), fmt.Sprintf("has:%d", hot), fmt.Sprintf("get:%d", hot), "len", "size")))
@@ -176,10 +209,10 @@ func genC09(g *G) {
 			if procs == 1 {
 				procs = 4
 			}
-			g.Case([]string{"reset", fmt.Sprintf("run %d %dt %s", limit, procs, strings.Join(toks, " "))})
+			g.Case([]string{"reset", fmt.Sprintf("run %d %dt%s %s", limit, procs, flags, strings.Join(toks, " "))})
 			continue
 		}
-		// a sequential prefix by thread 0 so that the cache is warm, then everybody
+		// mixed workload: every thread runs up to 6 random calls
 		perThread := make([]int, nthreads)
 		total := nthreads * (2 + g.Intn(4))
 		for i := 0; i < total; i++ {
@@ -209,7 +242,7 @@ func genC09(g *G) {
 			}
 			toks = append(toks, fmt.Sprintf("%d:%s", t, o))
 		}
-		g.Case([]string{"reset", fmt.Sprintf("run %d %d %s", limit, procs, strings.Join(toks, " "))})
+		g.Case([]string{"reset", fmt.Sprintf("run %d %d%s %s", limit, procs, flags, strings.Join(toks, " "))})
 	}
 }
 
